@@ -360,12 +360,17 @@ func init() {
 
 const bqlHang = 20 * time.Second
 
+// bqlHangConfirm bounds the second attempt after a first one exceeded bqlHang.
+const bqlHangConfirm = 120 * time.Second
+
 // Verdict of an isolated BQL request.
 type bqlOutcome struct {
 	Resp    BQLResp
 	Crashed bool
 	Hung    bool
 	Stderr  string
+	// SlowFirst: the first attempt exceeded bqlHang and the request was run again
+	SlowFirst bool
 }
 
 // runBQL executes the request in the worker.
@@ -374,6 +379,16 @@ func runBQL(req BQLReq) (bqlOutcome, error) {
 	o, err := isolate.CallJSON("bql", req, &out.Resp, bqlHang)
 	if err != nil {
 		return out, fmt.Errorf("infrastructure: %v", err)
+	}
+	if o.Hung {
+		// a time bound alone is no verdict on a busy machine: the same request once more, in a
+		// fresh worker, with six times the bound; only a second silence counts as a hang
+		out.Resp = BQLResp{}
+		o, err = isolate.CallJSON("bql", req, &out.Resp, bqlHangConfirm)
+		if err != nil {
+			return out, fmt.Errorf("infrastructure: %v", err)
+		}
+		out.SlowFirst = true
 	}
 	out.Crashed, out.Hung, out.Stderr = o.Crashed, o.Hung, o.Stderr
 	if !o.Crashed && !o.Hung && out.Resp.Err != "" {
